@@ -2,7 +2,28 @@ import io
 from . import ref
 
 
+def _watchdog(fn, secs=5):
+    import signal
+
+    def handler(signum, frame):
+        raise TimeoutError('watchdog')
+    old = signal.signal(signal.SIGALRM, handler)
+    signal.alarm(secs)
+    try:
+        return fn()
+    finally:
+        signal.alarm(0)
+        signal.signal(signal.SIGALRM, old)
+
+
 def replay_truncate(kind, blocked, lengths, t, items=None, api='class'):
+    try:
+        return _watchdog(lambda: _replay_truncate(kind, blocked, lengths, t, items, api))
+    except TimeoutError:
+        return True, 'cut at %d: the reader did not return within 5 s' % t, 'C09/hang'
+
+
+def _replay_truncate(kind, blocked, lengths, t, items=None, api='class'):
     from cardutil import mciipm
     f = io.BytesIO()
     if kind == 'vbs':
